@@ -168,6 +168,7 @@ let () =
     | "case" :: id :: "seq" :: _ as w -> run_seq w
     | "case" :: id :: "async" :: _ as w -> run_async w
     | "case" :: id :: "free" :: _ as w -> run_free w
+    | "case" :: id :: "lfree" :: _ as w -> run_free w
     | "case" :: id :: _ -> Printf.printf "case %s BADKIND\nend\n" id; flush stdout
     | _ -> ()
   done with End_of_file -> ())
